@@ -58,7 +58,7 @@ Island(v) ==
     [] v = 5 -> [kind |-> "core", good |-> FALSE, es |-> <<>>]
 
 OpNames == {"DeleteEntry", "DupEntry", "SwapEntries", "ZeroIf", "ZeroAll", "AliasIf", "CrossWirePeer",
-            "Oversize", "SingleAs", "Empty", "OutOfRangeMtu", "DupSegment", "FlipKind", "AddIsland"}
+            "Oversize", "SingleAs", "Empty", "OutOfRangeMtu", "DupSegment", "FlipKind", "AddIsland", "ZeroPeer"}
 
 Mutations(sp, ops) ==
   LET K == 1..Len(sp)
@@ -72,6 +72,7 @@ Mutations(sp, ops) ==
        \cup {M("ZeroAll", k, 0, 0)}
        \cup {M("AliasIf", k, i, i2) : i \in 1..N(k), i2 \in 1..N(k)}
        \cup {M("CrossWirePeer", k, i, a) : i \in 1..N(k), a \in {2, 5}}
+       \cup {M("ZeroPeer", k, i, w) : i \in 1..N(k), w \in 1..3}
        \cup {M("Oversize", k, 0, L) : L \in {63, 64, 70}}
        \cup {M("SingleAs", k, i, 0) : i \in 1..N(k)}
        \cup {M("Empty", k, 0, 0)}
@@ -86,6 +87,7 @@ Enabled1(m, sp) ==
   /\ (m.op = "AliasIf" => m.i # m.j)
   /\ (m.op \in {"ZeroAll", "Empty", "Oversize", "FlipKind"} => Len(sp[m.k].es) > 0)
   /\ (m.op = "CrossWirePeer" => sp[m.k].es[m.i].as # m.j)
+  /\ (m.op = "ZeroPeer" /\ m.j = 3 => sp[m.k].es[m.i].peers # <<>>)
   /\ (m.op = "DupSegment" => Len(sp) < 8)
   /\ (m.op = "AddIsland" => Len(sp) < 8)
 
@@ -103,6 +105,26 @@ ApplyM(m, sp) ==
        [] m.op = "CrossWirePeer" ->
             Set([es EXCEPT ![m.i] = [@ EXCEPT !.peers =
                    IF @ = <<>> THEN <<Peer(m.j, 77, 78)>> ELSE [@ EXCEPT ![1] = [@ EXCEPT !.pas = m.j]]]])
+       \* a peer entry without local (j = 1) or remote (j = 2) interface; j = 3: the peering link loses
+       \* the interface consistently on both sides (the mirror entries of all segments follow)
+       [] m.op = "ZeroPeer" ->
+            IF m.j = 3
+            THEN LET a == es[m.i].as  lif == es[m.i].peers[1].lif
+                     Fix(sg) == [sg EXCEPT !.good = FALSE,
+                                           !.es = [x \in 1..Len(sg.es) |->
+                                                     [sg.es[x] EXCEPT !.peers = [y \in 1..Len(sg.es[x].peers) |->
+                                                        LET q == sg.es[x].peers[y] IN
+                                                        IF sg.es[x].as = a /\ q.lif = lif THEN [q EXCEPT !.lif = 0]
+                                                        ELSE IF q.pas = a /\ q.pif = lif THEN [q EXCEPT !.pif = 0]
+                                                        ELSE q]]]]
+                     Touched(sg) == \E x \in 1..Len(sg.es) : \E y \in 1..Len(sg.es[x].peers) :
+                                       LET q == sg.es[x].peers[y] IN
+                                       (sg.es[x].as = a /\ q.lif = lif) \/ (q.pas = a /\ q.pif = lif)
+                 IN [x \in 1..Len(sp) |-> IF Touched(sp[x]) THEN Fix(sp[x]) ELSE sp[x]]
+            ELSE
+            Set([es EXCEPT ![m.i] = [@ EXCEPT !.peers =
+                   IF @ = <<>> THEN <<Peer(5, IF m.j = 2 THEN 0 ELSE 77, IF m.j = 1 THEN 0 ELSE 78)>>
+                   ELSE [@ EXCEPT ![1] = [@ EXCEPT !.lif = IF m.j = 1 THEN 0 ELSE @, !.pif = IF m.j = 2 THEN 0 ELSE @]]]])
        [] m.op = "Oversize"    -> Set(Pad(es, m.j))
        [] m.op = "SingleAs"    -> Set(<<es[m.i]>>)
        [] m.op = "Empty"       -> Set(<<>>)
